@@ -1,21 +1,67 @@
-// main.cpp — exact-scalar harness binary. One binary per group set (VQ_GROUPSET).
+// main.cpp — harness binary: runs cases (group, op, mask, args) on manif instantiated over
+//   VQ_SCALAR 0: vq::ExQ exact rationals (correspondence + exact predicates)
+//   VQ_SCALAR 1: double   2: float   3: hp = boost cpp_bin_float_100 with the double thresholds
+// One binary per group set (VQ_GROUPSET). Built from /repo's current working tree.
+#ifndef VQ_SCALAR
+#define VQ_SCALAR 0
+#endif
+#include <gmpxx.h>
+#include <mpfr.h>
+#if VQ_SCALAR == 0
 #include "exq.h"
+#elif VQ_SCALAR == 3
+#include "hp.h"
+#endif
 #include <manif/manif.h>
-#include "ops.h"
+#include "run.h"
 #include <set>
 #include <tuple>
+
+#if VQ_SCALAR == 0
 using S = vq::ExQ;
 template<> struct ScalarIO<S> {
   static S parse(const std::string& s){ mpq_class q(s); q.canonicalize(); return S(q); }
   static std::string print(const S& x){ return x.v.get_str(); }
 };
+#elif VQ_SCALAR == 1 || VQ_SCALAR == 2
+#if VQ_SCALAR == 1
+using S = double;
+#else
+using S = float;
+#endif
+static double q_to_double(const std::string& s, bool single){
+  mpq_class q(s); q.canonicalize();
+  mpfr_t f; mpfr_init2(f, single ? 24 : 53); mpfr_set_q(f, q.get_mpq_t(), MPFR_RNDN);
+  double d = mpfr_get_d(f, MPFR_RNDN); mpfr_clear(f); return d;
+}
+template<> struct ScalarIO<S> {
+  static S parse(const std::string& s){ return (S)q_to_double(s, VQ_SCALAR==2); }
+  static std::string print(const S& x){
+    if(std::isnan((double)x)) return "nan"; if(std::isinf((double)x)) return x>0?"inf":"-inf";
+    return mpq_class((double)x).get_str(); }      // exact value of the float
+};
+#else
+using S = vq::hp;
+template<> struct ScalarIO<S> {
+  static S parse(const std::string& s){
+    size_t i=s.find('/'); if(i==std::string::npos) return S(vq::hp_t(s));
+    return S(vq::hp_t(s.substr(0,i))/vq::hp_t(s.substr(i+1))); }
+  static std::string print(const S& x){ return x.v.str(60, std::ios_base::scientific); }
+};
+#endif
+
+#include "ops.h"
+#include "preds.h"
+#if VQ_GROUPSET >= 100
+#include "bundles.h"
+#endif
 
 #if VQ_GROUPSET == 1
 #define VQ_GROUPS X("SO2", manif::SO2<S>)
 #elif VQ_GROUPSET == 2
 #define VQ_GROUPS X("SE2", manif::SE2<S>)
 #elif VQ_GROUPSET == 3
-#define VQ_GROUPS X("R1", manif::R1<S>) X("R3", manif::R3<S>) X("R5", manif::R5<S>)
+#define VQ_GROUPS X("R1", manif::R1<S>) X("R2", manif::R2<S>) X("R3", manif::R3<S>) X("R5", manif::R5<S>) X("R9", manif::R9<S>)
 #elif VQ_GROUPSET == 4
 #define VQ_GROUPS X("SO3", manif::SO3<S>)
 #elif VQ_GROUPSET == 5
@@ -27,7 +73,7 @@ template<> struct ScalarIO<S> {
 #endif
 
 static bool dispatch(const Case& c, Out<S>& o){
-#define X(name, type) if(c.group==name) return GroupRunner<type>::run(c,o);
+#define X(name, type) if(c.group==name) return (c.op.size()>1 && c.op[0]=='P' && isdigit(c.op[1])) ? Pred<type>::run(c,o) : GroupRunner<type>::run(c,o);
   VQ_GROUPS
 #undef X
   return false;
@@ -39,7 +85,9 @@ int main(int argc, char** argv){
   std::string line; Case c;
   while(std::getline(*in,line)){
     if(!parse_case(line,c)) continue;
-    vq::oracle_log().clear();
+#if VQ_SCALAR == 0
+    vq::oracle_log().clear(); vq::angle_registry().clear();
+#endif
     std::string res;
     try {
       Out<S> o;
@@ -47,17 +95,24 @@ int main(int argc, char** argv){
     }
     catch(const manif::invalid_argument&){ res="exc invalid_argument"; }
     catch(const manif::runtime_error&){ res="exc runtime_error"; }
+#if VQ_SCALAR == 0
     catch(const vq::div_by_zero&){ res="exc div0"; }
+#endif
     catch(const std::bad_alloc&){ res="exc bad_alloc"; }
     catch(const std::logic_error&){ res="exc logic_error"; }
     catch(const std::exception& e){ res=std::string("exc other ")+e.what(); }
     std::cout << c.raw << "\n";
-    std::set<std::tuple<int,std::string,std::string>> seen;
+#if VQ_SCALAR == 0
+    std::map<std::tuple<int,std::string,std::string>,std::string> seen; bool conflict=false;
     for(auto& k: vq::oracle_log()){
       auto key=std::make_tuple(k.f,k.a.get_str(),k.b.get_str());
-      if(!seen.insert(key).second) continue;
+      auto it=seen.find(key);
+      if(it!=seen.end()){ if(it->second!=k.r.get_str()) conflict=true; continue; }
+      seen[key]=k.r.get_str();
       std::cout << "O " << k.f << " " << k.a.get_str() << " " << k.b.get_str() << " " << k.r.get_str() << "\n";
     }
+    if(conflict) res="oracle_conflict";
+#endif
     std::cout << "R " << c.id << " " << res << "\n";
   }
   return 0;
